@@ -55,7 +55,6 @@ ASSUMPTIONS = [
 CH_NAMES = ['A', 'B', 'M', 'N', 'X']
 CH_ID = {n: i for i, n in enumerate(CH_NAMES)}
 KF_SINGLE = 'single_mode_table_length_unchecked'
-KF_ZERO = 'zero_count_empties_table'
 
 
 # ---------------------------------------------------------------------------------------------------------------------
@@ -687,15 +686,9 @@ def _run_impl(case):
     except (TaborException, ValueError, AssertionError) as e:
         obs['err'] = type(e).__name__
         return obs
-    except AttributeError as e:
-        if 'get_subset_for_channels' in str(e) and has_zero(tree):
-            # known finding zero_count_empties_table: a node emptied by unrolling a 0-count child reaches the parser as
-            # a leaf without waveform; still a rejection (nothing is emitted), but not a TaborException
-            obs['err'] = 'AttributeError'
-            return obs
-        obs['crash'] = '%s: %s' % (type(e).__name__, e)
-        return obs
     except Exception as e:
+        # incl. AttributeError: a sequence table entry without waveform (a node emptied by a 0-count child) is a
+        # TaborException since the repair of the parsers (former known finding zero_count_empties_table)
         obs['crash'] = '%s: %s' % (type(e).__name__, e)
         return obs
     segs, lens = tp.get_sampled_segments()
@@ -841,6 +834,25 @@ def _depth(t):
     return 0 if not t[3] else 1 + max(_depth(c) for c in t[3])
 
 
+def _rmax(r):
+    return max(1, abs(r))
+
+
+def _W(t):
+    return 1 + 3 * _rmax(t[0]) * (1 + sum(_W(c) for c in t[3]))
+
+
+def _R(t):
+    return _rmax(t[0]) * max(1, sum(_R(c) for c in t[3]))
+
+
+def fuel_covered(tree):
+    """Python copy of the two closed fuel bounds of Props.C16_compile_fixed_fuel_stable (fab_bound 2, prep_bound of
+    the children of the encapsulated root) against the model's fixed fuel (40000, 4000); informational only"""
+    l = [tree] if (tree[0] > 1 or t_vol(tree) or not tree[3]) else tree[3]
+    return 1 + 8 * sum(_W(x) for x in l) <= 40000 and 1 + 2 * sum(_R(x) for x in l) <= 4000
+
+
 def histogram_keys(case, obs):
     keys = ['build:' + case['build'], 'depth:%d' % _depth(case['tree']), 'mode_req:%s' % case['cfg']['mode']]
     if 'ok' in obs:
@@ -857,6 +869,7 @@ def histogram_keys(case, obs):
         keys.append('crash')
     if case.get('family'):
         keys.append('family:' + case['family'])
+    keys.append('fuel:within_closed_bounds' if fuel_covered(obs.get('tree', case['tree'])) else 'fuel:beyond_closed_bounds')
     if has_zero(case['tree']):
         keys.append('count:0')
     if any_vol(case['tree']):
@@ -875,8 +888,6 @@ def histogram_keys(case, obs):
 
 
 def py_spec(case, obs):
-    if obs.get('err') == 'AttributeError':
-        return 'TaborProgram failed with AttributeError (leaf without waveform reached the parser) instead of a TaborException'
     if obs.get('first_changed'):
         return obs['first_changed']
     if 'ok' not in obs:
@@ -888,8 +899,6 @@ def classify(case, obs):
     """known finding: in SINGLE mode the table length is not compared with min_seq_len (lower bound only: since the
     repair of setup_single_sequence_mode a table longer than max_seq_len is rejected, so a too LONG table is a
     violation in either mode)"""
-    if obs.get('err') == 'AttributeError' and has_zero(obs.get('tree', case['tree'])):
-        return KF_ZERO
     if 'ok' in obs and not obs['ok']['advanced'] and obs.get('py_plays') is None and obs.get('py_tables') \
             and all(len(t) <= case['cfg']['max'] for t in obs['ok']['seqs']):
         return KF_SINGLE
